@@ -1,4 +1,657 @@
-(* Mode.v -- stub; the model that belongs here is being written. *)
+(* Mode.v -- C02: what writeall puts into an archive for a directory tree and what extractall makes of it.
+
+   Mirrors, on Linux (sys.platform.startswith("linux"), os.name == "posix"):
+     py7zr/py7zr.py  SevenZipFile._make_file_info (l.817-897)     attributes_of, classify
+                     ArchiveFile.is_directory/is_symlink/is_junction/is_socket/posix_mode/st_fmt (l.144-235)
+                     SevenZipFile.writeall/_writeall (l.708-728, 1067-1076)     items, walk
+                     SevenZipFile._sanitize_archive_arcname (l.911-928)           sanitize
+                     Worker._find_link_target (l.1512-1533)                       rewrite_links
+                     SevenZipFile._extract (l.529-656), Worker._extract_single (l.1372-1449)   rebuild
+     py7zr/helpers.py get_sanitized_output_path/canonical_path/is_path_valid     canon_out, link_inside
+   Definitions only (all computable, extracted); proofs are in ModeProofs.v and Walk.v.
+
+   What is NOT modelled (assumed; exercised end to end by tools/harness/c02.py):
+   - storage of an entry (name, attributes, emptystream, lastwritetime, data) in the archive: header codec,
+     compression, encryption, CRC (properties C01, C06, C07, C17);
+   - str <-> text: a name is the list of its code points, a path is the list of its components; joining with
+     '/' and splitting again is the identity because a component never contains '/' (wf_name); UTF-8;
+   - st_mtime <-> FILETIME is FileTime.v; here a node carries the FILETIME integer _make_file_info computed;
+   - creationtime / lastaccesstime and the times of a link (stored, never applied on extraction);
+   - time "now" and the umask: def_ft, def_dmode, def_fmode stand for them. *)
 From P7 Require Import Prelude.
+From P7 Require FileTime.
 Open Scope Z_scope.
-Definition mode_dispatch (fn : Z) (a : tree) : tree := TL [TI (-2)].
+
+(* ================================================================== 1. attributes *)
+Inductive kind := KFile | KDir | KLink.
+
+Definition kind_eqb (a b : kind) : bool :=
+  match a, b with KFile, KFile | KDir, KDir | KLink, KLink => true | _, _ => false end.
+
+Definition S_IMODE (m : Z) : Z := Z.land m 4095.     (* 0o7777 *)
+Definition S_IFMT (m : Z) : Z := Z.land m 61440.     (* 0o170000 *)
+Definition S_IFDIR : Z := 16384.                     (* 0o040000 *)
+Definition S_IFREG : Z := 32768.                     (* 0o100000 *)
+Definition S_IFLNK : Z := 40960.                     (* 0o120000 *)
+Definition S_IFSOCK : Z := 49152.                    (* 0o140000 *)
+Definition S_ISDIR (m : Z) : bool := S_IFMT m =? S_IFDIR.
+Definition S_ISREG (m : Z) : bool := S_IFMT m =? S_IFREG.
+Definition S_ISLNK (m : Z) : bool := S_IFMT m =? S_IFLNK.
+Definition S_ISSOCK (m : Z) : bool := S_IFMT m =? S_IFSOCK.
+
+Definition FA_READONLY : Z := 1.
+Definition FA_DIRECTORY : Z := 16.
+Definition FA_ARCHIVE : Z := 32.
+Definition FA_REPARSE_POINT : Z := 1024.
+Definition FA_UNIX_EXTENSION : Z := 32768.           (* 0x8000 *)
+
+(* f["attributes"] as the linux branch of _make_file_info builds it, from the kind of entry and the st_mode of
+   the stat result it used (lstat; stat for a dereferenced link) *)
+Definition attributes_of (k : kind) (st_mode : Z) : Z :=
+  match k with
+  | KFile =>
+      Z.lor FA_ARCHIVE (Z.lor FA_UNIX_EXTENSION (Z.shiftl (S_IMODE st_mode) 16))
+  | KDir =>
+      Z.lor (Z.lor FA_DIRECTORY (Z.lor FA_UNIX_EXTENSION (Z.shiftl S_IFDIR 16)))
+            (Z.shiftl (S_IMODE st_mode) 16)
+  | KLink =>
+      Z.lor (Z.lor (Z.lor FA_ARCHIVE FA_REPARSE_POINT) (Z.lor FA_UNIX_EXTENSION (Z.shiftl S_IFLNK 16)))
+            (Z.shiftl (S_IMODE st_mode) 16)
+  end.
+
+(* which branch _make_file_info takes: lmode = target.lstat().st_mode, smode = target.stat().st_mode
+   (is_symlink() looks at lstat, is_dir()/is_file() follow links); None: no branch, f has no "attributes" *)
+Definition classify (deref : bool) (lmode smode : Z) : option (kind * Z) :=
+  if S_ISLNK lmode then
+    if deref then (if S_ISDIR smode then Some (KDir, smode) else Some (KFile, smode))
+    else Some (KLink, lmode)
+  else if S_ISDIR smode then Some (KDir, lmode)
+  else if S_ISREG smode then Some (KFile, lmode)
+  else None.
+
+Definition emptystream_of (k : kind) : bool := match k with KDir => true | _ => false end.
+
+(* ArchiveFile: attributes may be absent (None) *)
+Definition test_attribute (a : option Z) (bit : Z) : bool :=
+  match a with None => false | Some v => Z.land v bit =? bit end.
+Definition is_directory (a : option Z) : bool := test_attribute a FA_DIRECTORY.
+Definition is_readonly (a : option Z) : bool := test_attribute a FA_READONLY.
+Definition get_unix_extension (a : option Z) : option Z :=
+  match a with
+  | Some v => if test_attribute a FA_UNIX_EXTENSION then Some (Z.shiftr v 16) else None
+  | None => None
+  end.
+Definition is_symlink (a : option Z) : bool :=
+  match get_unix_extension a with
+  | Some e => S_ISLNK e
+  | None => test_attribute a FA_REPARSE_POINT
+  end.
+Definition is_junction (a : option Z) : bool := test_attribute a (Z.lor FA_REPARSE_POINT FA_DIRECTORY).
+Definition is_socket (a : option Z) : bool :=
+  match get_unix_extension a with Some e => S_ISSOCK e | None => false end.
+Definition posix_mode (a : option Z) : option Z := option_map S_IMODE (get_unix_extension a).
+Definition st_fmt (a : option Z) : option Z := option_map S_IFMT (get_unix_extension a).
+
+(* the per-kind dispatch of _extract (l.592-607): directory, socket (ignored: None), link, regular file *)
+Definition entry_kind (a : option Z) : option kind :=
+  if is_directory a then Some KDir
+  else if is_socket a then None
+  else if is_symlink a || is_junction a then Some KLink
+  else Some KFile.
+
+(* ================================================================== 2. names, paths, order *)
+Definition name := list Z.          (* code points *)
+Definition path := list name.       (* components *)
+
+Section Lex.
+  Context {A : Type} (cmp : A -> A -> comparison).
+  Fixpoint lex_cmp (a b : list A) : comparison :=
+    match a, b with
+    | [], [] => Eq
+    | [], _ :: _ => Lt
+    | _ :: _, [] => Gt
+    | x :: a', y :: b' => match cmp x y with Eq => lex_cmp a' b' | c => c end
+    end.
+End Lex.
+(* str comparison: by code point *)
+Definition name_cmp : name -> name -> comparison := lex_cmp Z.compare.
+Definition name_eqb (a b : name) : bool := match name_cmp a b with Eq => true | _ => false end.
+Definition name_ltb (a b : name) : bool := match name_cmp a b with Lt => true | _ => false end.
+
+(* list-of-str comparison (PurePath.__lt__ compares the parts) *)
+Definition path_cmp : path -> path -> comparison := lex_cmp name_cmp.
+Definition path_eqb (a b : path) : bool := match path_cmp a b with Eq => true | _ => false end.
+Definition path_leb (a b : path) : bool := match path_cmp a b with Gt => false | _ => true end.
+
+Fixpoint insert_path (a : path) (l : list path) : list path :=
+  match l with
+  | [] => [a]
+  | b :: l' => if path_leb a b then a :: l else b :: insert_path a l'
+  end.
+Fixpoint sort_paths (l : list path) : list path :=
+  match l with [] => [] | a :: l' => insert_path a (sort_paths l') end.
+
+Definition dot : name := [46].
+Definition dotdot : name := [46; 46].
+Definition slash : Z := 47.
+
+(* ================================================================== 3. trees *)
+Inductive node :=
+| File (mode ft : Z) (data : bytes)
+| Dir (mode ft : Z) (ch : list (name * node))
+| Link (target : path).             (* the link text, split at '/' *)
+
+Fixpoint lookup (n : name) (l : list (name * node)) : option node :=
+  match l with
+  | [] => None
+  | (k, v) :: l' => if name_eqb k n then Some v else lookup n l'
+  end.
+Fixpoint replace (n : name) (v : node) (l : list (name * node)) : list (name * node) :=
+  match l with
+  | [] => []
+  | (k, w) :: l' => if name_eqb k n then (k, v) :: l' else (k, w) :: replace n v l'
+  end.
+Fixpoint insert_sorted (n : name) (v : node) (l : list (name * node)) : list (name * node) :=
+  match l with
+  | [] => [(n, v)]
+  | (k, w) :: l' => if name_ltb n k then (n, v) :: l else (k, w) :: insert_sorted n v l'
+  end.
+(* a directory is the finite map from names to nodes, kept as the list sorted by name *)
+Definition ins (n : name) (v : node) (l : list (name * node)) : list (name * node) :=
+  match lookup n l with Some _ => replace n v l | None => insert_sorted n v l end.
+
+Fixpoint get (t : node) (p : path) : option node :=
+  match p with
+  | [] => Some t
+  | x :: p' =>
+    match t with
+    | Dir _ _ ch => match lookup x ch with Some c => get c p' | None => None end
+    | _ => None
+    end
+  end.
+
+(* sorted(os.listdir(path)): children in code-point order of their names, recursively *)
+Fixpoint sort_ch (l : list (name * node)) : list (name * node) :=
+  match l with [] => [] | (n, v) :: l' => insert_sorted n v (sort_ch l') end.
+Fixpoint canon (t : node) : node :=
+  match t with
+  | Dir m ft ch => Dir m ft (sort_ch (map (fun nc => match nc with (n, c) => (n, canon c) end) ch))
+  | _ => t
+  end.
+
+(* ---- dereference: every link replaced by what it points to (stat() semantics inside the tree).
+   fuel bounds the number of nested steps; a link that cannot be resolved inside the tree within the fuel
+   (dangling, leaving the tree, cyclic) yields None and the entry is ignored, as _writeall ignores it
+   (is_file()/is_dir() are False; ELOOP).  Cyclic links under dereference are outside the model: the real depth
+   at which ELOOP cuts the expansion is a kernel constant. *)
+Fixpoint resolve (fuel : nat) (root : node) (cur : path) (comps : path) : option path :=
+  match fuel with
+  | O => None
+  | S f =>
+    match comps with
+    | [] => Some cur
+    | c :: rest =>
+      if name_eqb c dotdot then
+        match cur with [] => None | _ => resolve f root (removelast cur) rest end
+      else if name_eqb c dot || name_eqb c [] then resolve f root cur rest
+      else
+        match get root cur with
+        | Some (Dir _ _ ch) =>
+          match lookup c ch with
+          | Some (Link tg) =>
+            match resolve f root cur tg with
+            | Some p => resolve f root p rest
+            | None => None
+            end
+          | Some _ => resolve f root (cur ++ [c]) rest
+          | None => None
+          end
+        | _ => None
+        end
+    end
+  end.
+
+(* cd: real path of the directory containing t; self: real path of t when t is a directory *)
+Fixpoint expand (fuel : nat) (root : node) (cd self : path) (t : node) : option node :=
+  match fuel with
+  | O => None
+  | S f =>
+    match t with
+    | File _ _ _ => Some t
+    | Dir m ft ch =>
+      Some (Dir m ft (flat_map (fun nc => match nc with (n, c) =>
+               match expand f root self (self ++ [n]) c with Some c' => [(n, c')] | None => [] end end) ch))
+    | Link tg =>
+      match resolve f root cd tg with
+      | Some p => match get root p with
+                  | Some t' => expand f root (removelast p) p t'
+                  | None => None
+                  end
+      | None => None
+      end
+    end
+  end.
+
+(* ================================================================== 4. writeall *)
+(* one member before naming: path relative to the root given to writeall, kind, st_mode, FILETIME, content *)
+Record item := mkI { i_rel : path; i_kind : kind; i_mode : Z; i_ft : Z; i_data : bytes; i_link : path }.
+
+Definition push (n : name) (it : item) : item :=
+  mkI (n :: i_rel it) (i_kind it) (i_mode it) (i_ft it) (i_data it) (i_link it).
+
+(* _writeall without the cwd test: the entry of a directory before its children, children in sorted order *)
+Fixpoint items (t : node) : list item :=
+  match t with
+  | File m ft d => [mkI [] KFile (Z.lor S_IFREG m) ft d []]
+  | Link tg => [mkI [] KLink (Z.lor S_IFLNK 511) 0 [] tg]
+  | Dir m ft ch =>
+      mkI [] KDir (Z.lor S_IFDIR m) ft [] [] ::
+      flat_map (fun nc => match nc with (n, c) => map (push n) (items c) end) ch
+  end.
+
+Record wctx := mkC {
+  c_abs : bool;               (* the path given to writeall is absolute *)
+  c_base : path;              (* its components; [] for '.' *)
+  c_arc : option path;        (* components of arcname when given *)
+  c_cwd : option path;        (* path, relative to the root given to writeall, of the directory that is the
+                                 process's current directory (path.samefile('.')), if it is inside the tree *)
+  c_deref : bool }.
+
+(* `if not path.samefile("."): self.write(path, arcname)` *)
+Definition skipped (c : wctx) (it : item) : bool :=
+  match i_kind it, c_cwd c with
+  | KDir, Some w => path_eqb (i_rel it) w
+  | _, _ => false
+  end.
+
+(* ---- Worker._find_link_target: the text stored for a link *)
+Definition is_blank (n : name) : bool := name_eqb n [] || name_eqb n dot.
+(* pathlib.Path(text).as_posix() on a relative text: empty and '.' components dropped; '.' if nothing is left *)
+Definition norm_link (tg : path) : path :=
+  match filter (fun n => negb (is_blank n)) tg with [] => [dot] | l => l end.
+
+Definition origin := (bool * path)%type.     (* (absolute?, components) of f["origin"] *)
+
+Fixpoint common_len (a b : path) : nat :=
+  match a, b with
+  | x :: a', y :: b' => if name_eqb x y then S (common_len a' b') else O
+  | _, _ => O
+  end.
+(* os.path.relpath(p, start) for p, start relative, without '..' (both are below the current directory) *)
+Definition relpath (p start : path) : path :=
+  let i := common_len p start in
+  match repeat dotdot (length start - i) ++ skipn i p with [] => [dot] | l => l end.
+
+(* linkname == self.files[j].origin.as_posix(): a relative text equals only a relative origin; "." for [] *)
+Definition origin_text (o : origin) : path := match snd o with [] => [dot] | l => l end.
+Definition captured (ln : path) (os : list origin) : bool :=
+  existsb (fun o => negb (fst o) && path_eqb ln (origin_text o)) os.
+
+Definition find_link_target (os : list origin) (self : origin) (tg : path) : path :=
+  let ln := norm_link tg in
+  if captured ln os then relpath ln (removelast (snd self)) else ln.
+
+Definition origin_of (c : wctx) (it : item) : origin := (c_abs c, c_base c ++ i_rel it).
+
+(* members in order; `seen` = origins of self.files so far (the member itself is appended before it is written) *)
+Fixpoint rewrite_links (c : wctx) (seen : list origin) (its : list item) : list item :=
+  match its with
+  | [] => []
+  | it :: rest =>
+    let o := origin_of c it in
+    let seen' := seen ++ [o] in
+    let it' := match i_kind it with
+               | KLink => mkI (i_rel it) KLink (i_mode it) (i_ft it) (i_data it)
+                              (find_link_target seen' o (i_link it))
+               | _ => it
+               end in
+    it' :: rewrite_links c seen' rest
+  end.
+
+(* ---- _sanitize_archive_arcname on the '/'-joined name, at the level of components *)
+Definition is_letter (z : Z) : bool := ((65 <=? z) && (z <=? 90)) || ((97 <=? z) && (z <=? 122)).
+Definition drive_like (n : name) : bool :=
+  match n with l :: 58 :: _ => is_letter l | _ => false end.     (* re.match("^[a-zA-Z]:", ...) *)
+Definition sanitize (p : path) : res path :=
+  (* a leading '/' (absolute origin) is stripped: the components stay *)
+  let p1 := match p with
+            | n :: rest => if drive_like n then
+                              match skipn 2 n with [] => rest | n' => n' :: rest end
+                           else p
+            | [] => p
+            end in
+  match p1 with
+  | n :: _ => if drive_like n then Err EOther (* AbsolutePathError *) else Ok p1
+  | [] => Ok p1
+  end.
+(* f["filename"] = pathlib.Path(arcname).as_posix() *)
+Definition as_posix (p : path) : path := filter (fun n => negb (is_blank n)) p.
+
+Record entry := mkE {
+  e_path : path;        (* f["filename"] split at '/' ; [] stands for "." *)
+  e_origin : origin;
+  e_attr : Z;
+  e_ft : Z;             (* lastwritetime *)
+  e_empty : bool;       (* emptystream *)
+  e_data : list Z       (* content bytes; for a link the text (code points; stored as UTF-8) *)
+}.
+
+Fixpoint join_slash (p : path) : list Z :=
+  match p with
+  | [] => []
+  | [n] => n
+  | n :: rest => n ++ slash :: join_slash rest
+  end.
+Fixpoint split_slash (s : list Z) : path :=
+  match s with
+  | [] => [[]]
+  | c :: s' =>
+    if c =? slash then [] :: split_slash s'
+    else match split_slash s' with [] => [[c]] | h :: tl => (c :: h) :: tl end
+  end.
+
+Definition finish (c : wctx) (it : item) : res entry :=
+  let o := origin_of c it in
+  let arc := match c_arc c with Some a => a ++ i_rel it | None => snd o end in
+  do p <- sanitize arc;
+  Ok (mkE (as_posix p) o (attributes_of (i_kind it) (i_mode it)) (i_ft it) (emptystream_of (i_kind it))
+          (match i_kind it with KLink => join_slash (i_link it) | _ => i_data it end)).
+
+Fixpoint map_res {A B} (f : A -> res B) (l : list A) : res (list B) :=
+  match l with
+  | [] => Ok []
+  | a :: l' => do b <- f a; do bs <- map_res f l'; Ok (b :: bs)
+  end.
+
+Definition deref_fuel : nat := 200.
+
+(* the tree writeall walks: the tree itself, or with every link replaced when dereference is on *)
+Definition source_tree (c : wctx) (t : node) : option node :=
+  if c_deref c then expand deref_fuel t [] [] t else Some t.
+
+Definition walk_items (c : wctx) (t : node) : list item :=
+  let its := filter (fun it => negb (skipped c it)) (items (canon t)) in
+  if c_deref c then its else rewrite_links c [] its.
+
+(* writeall(path, arcname) -> the members of the archive, in order; Err: the exception writeall raises *)
+Definition walk (c : wctx) (t : node) : res (list entry) :=
+  match source_tree c t with
+  | Some t' => map_res (finish c) (walk_items c t')
+  | None => Ok []          (* a root that is a link to nowhere: ValueError in writeall; not in scope *)
+  end.
+
+(* ================================================================== 5. extractall into a directory *)
+Definition def_dmode : Z := 493.      (* 0o777 & ~0o022 *)
+Definition def_fmode : Z := 420.      (* 0o666 & ~0o022 *)
+Definition def_ft : Z := 0.           (* "now" *)
+Definition new_dir : node := Dir def_dmode def_ft [].
+
+(* apply f to the node at p (None: absent); mk: create missing intermediate directories
+   (Path.mkdir(parents=True)) *)
+Fixpoint alter (p : path) (mk : bool) (f : option node -> res node) (t : node) : res node :=
+  match p with
+  | [] => f (Some t)
+  | x :: p' =>
+    match t with
+    | Dir m ft ch =>
+      match lookup x ch with
+      | Some c => do c' <- alter p' mk f c; Ok (Dir m ft (ins x c' ch))
+      | None =>
+        match p' with
+        | [] => do c' <- f None; Ok (Dir m ft (ins x c' ch))
+        | _ :: _ =>
+          if mk then do c' <- alter p' mk f new_dir; Ok (Dir m ft (ins x c' ch)) else Err EOther
+        end
+      end
+    | File _ _ _ => Err EOther         (* NotADirectoryError / FileExistsError *)
+    | Link _ => Err EUnsupported       (* the operation would follow the link: outside the model *)
+    end
+  end.
+
+Definition f_mkdir (o : option node) : res node :=
+  match o with
+  | None => Ok new_dir
+  | Some (Dir m ft ch) => Ok (Dir m ft ch)       (* FileExistsError and is_dir(): pass *)
+  | Some (File _ _ _) => Err EOther              (* "Directory ... is existed as a normal file." *)
+  | Some (Link _) => Err EUnsupported
+  end.
+Definition f_write (d : bytes) (o : option node) : res node :=
+  match o with
+  | None => Ok (File def_fmode def_ft d)
+  | Some (File m _ _) => Ok (File m def_ft d)
+  | Some (Dir _ _ _) => Err EOther               (* IsADirectoryError *)
+  | Some (Link _) => Err EUnsupported
+  end.
+Definition f_touch (o : option node) : res node :=
+  match o with
+  | None => Ok (File def_fmode def_ft [])
+  | Some (Link _) => Err EUnsupported
+  | Some t => Ok t
+  end.
+Definition f_symlink (tg : path) (o : option node) : res node :=
+  match o with
+  | None => Ok (Link tg)
+  | Some (File _ _ _) => Ok (Link tg)            (* exists(): unlink(), then symlink_to *)
+  | Some (Dir _ _ _) => Err EOther               (* unlink() of a directory *)
+  | Some (Link _) => Err EUnsupported
+  end.
+(* os.utime then chmod (both follow links) *)
+Definition f_meta (mode : option Z) (ft : Z) (o : option node) : res node :=
+  match o with
+  | None => Err EOther                           (* FileNotFoundError *)
+  | Some (File m _ d) => Ok (File (match mode with Some m' => m' | None => m end) ft d)
+  | Some (Dir m _ ch) => Ok (Dir (match mode with Some m' => m' | None => m end) ft ch)
+  | Some (Link _) => Err EUnsupported
+  end.
+
+(* get_sanitized_output_path: '..' resolved lexically; Bad7zFile when the name leaves the destination *)
+Fixpoint canon_out_go (p : path) (stack : path) : res path :=   (* stack reversed *)
+  match p with
+  | [] => Ok (rev stack)
+  | n :: p' =>
+    if name_eqb n dotdot then
+      match stack with [] => Err EBad7z | _ :: s' => canon_out_go p' s' end
+    else canon_out_go p' (n :: stack)
+  end.
+Definition canon_out (p : path) : res path := canon_out_go p [].
+
+(* is_path_valid(fileish.parent.joinpath(dst), path): the link text, read lexically from the directory of the
+   link, stays inside the destination.  depth = number of components of the link's parent below the destination.
+   (The real test also accepts a text that leaves the destination and re-enters it through the destination's own
+   name; such texts are outside the model.) *)
+Fixpoint link_inside (depth : Z) (tg : path) : bool :=
+  match tg with
+  | [] => true
+  | n :: tg' =>
+    if name_eqb n dotdot then (if depth <=? 0 then false else link_inside (depth - 1) tg')
+    else link_inside (depth + 1) tg'
+  end.
+
+Definition is_dir_e (e : entry) : bool := is_directory (Some (e_attr e)).
+
+(* one file-system operation of the extraction: apply o_f at o_path, creating parents if o_mk *)
+Record op := mkOp { o_path : path; o_mk : bool; o_f : option node -> res node }.
+
+Fixpoint fold_res {A S} (f : A -> S -> res S) (l : list A) (s : S) : res S :=
+  match l with
+  | [] => Ok s
+  | a :: l' => do s' <- f a s; fold_res f l' s'
+  end.
+
+Definition run (ops : list op) (t : node) : res node :=
+  fold_res (fun o t => alter (o_path o) (o_mk o) (o_f o) t) ops t.
+
+Definition fail (e : err) : option node -> res node := fun _ => Err e.
+
+(* one member in Worker._extract_single (members that are directories or sockets are not registered);
+   fileish.parent.mkdir(parents=True, exist_ok=True) is the o_mk of the operation *)
+Definition extract_ops (pe : path * entry) : list op :=
+  let (p, e) := pe in
+  match entry_kind (Some (e_attr e)) with
+  | Some KDir | None => []
+  | Some _ =>
+    if e_empty e then [mkOp p true f_touch]
+    else if is_symlink (Some (e_attr e)) then
+      if match e_data e with c :: _ => c =? slash | [] => false end
+      then [mkOp p true (fail EUnsupported)]                (* absolute link text: outside the model *)
+      else
+        let tg := norm_link (split_slash (e_data e)) in
+        if link_inside (Z.of_nat (length p) - 1) tg then [mkOp p true (f_symlink tg)]
+        else [mkOp p true (fail EBad7z)]                    (* "Symlink point out of target directory." *)
+    else [mkOp p true (f_write (e_data e))]
+  end.
+
+Definition exists_b (t : node) (p : path) : bool := match get t p with Some _ => true | None => false end.
+
+(* target_dirs: directories that do not exist yet *)
+Definition mkdir_paths (t0 : node) (plan : list (path * entry)) : list path :=
+  map fst (filter (fun pe => is_dir_e (snd pe) && negb (exists_b t0 (fst pe))) plan).
+
+(* the post-pass over target_files (directories that did not exist before, regular files): utime, chmod *)
+Definition f_meta_ro (ft : Z) (o : option node) : res node :=
+  match o with
+  | Some (File m _ d) => Ok (File (Z.land m 365) ft d)      (* & (0o777 ^ 0o222) *)
+  | other => f_meta None ft other
+  end.
+Definition post_ops (t0 : node) (pe : path * entry) : list op :=
+  let (p, e) := pe in
+  let inpost := match entry_kind (Some (e_attr e)) with
+                | Some KDir => negb (exists_b t0 p)
+                | Some KFile => true
+                | _ => false
+                end in
+  if inpost then
+    match posix_mode (Some (e_attr e)) with
+    | Some m => [mkOp p false (f_meta (Some m) (e_ft e))]
+    | None =>
+      (* fallback: only the read-only flag, for non-directories *)
+      if is_readonly (Some (e_attr e)) && negb (is_dir_e e) then [mkOp p false (f_meta_ro (e_ft e))]
+      else [mkOp p false (f_meta None (e_ft e))]
+    end
+  else [].
+
+(* "%d" % n for n >= 0 *)
+Fixpoint dec_digits (fuel : nat) (n : Z) (acc : list Z) : list Z :=
+  match fuel with
+  | O => acc
+  | S f => let acc' := (48 + n mod 10) :: acc in if n <? 10 then acc' else dec_digits f (n / 10) acc'
+  end.
+Definition str_of_int (n : Z) : list Z := dec_digits 30 n [].
+
+Fixpoint assoc_path (p : path) (l : list (path * Z)) : option Z :=
+  match l with
+  | [] => None
+  | (q, k) :: l' => if path_eqb q p then Some k else assoc_path p l'
+  end.
+Fixpoint set_assoc (p : path) (k : Z) (l : list (path * Z)) : list (path * Z) :=
+  match l with
+  | [] => [(p, k)]
+  | (q, j) :: l' => if path_eqb q p then (q, k) :: l' else (q, j) :: set_assoc p k l'
+  end.
+(* f.filename + "_%d" % k *)
+Definition suffix_last (p : path) (s : list Z) : path :=
+  match p with [] => [dot ++ s] | _ => removelast p ++ [last p [] ++ s] end.
+(* `fnames` of _extract (l.566-585): a name seen before gets "_0", "_1", ... *)
+Fixpoint outnames (seen : list (path * Z)) (es : list entry) : list (path * entry) :=
+  match es with
+  | [] => []
+  | e :: r =>
+    match assoc_path (e_path e) seen with
+    | None => (e_path e, e) :: outnames ((e_path e, 0) :: seen) r
+    | Some k => (suffix_last (e_path e) (95 :: str_of_int k), e) :: outnames (set_assoc (e_path e) (k + 1) seen) r
+    end
+  end.
+
+(* extractall(path) into the directory whose content is t0 *)
+Definition plan_of (es : list entry) : res (list (path * entry)) :=
+  map_res (fun pe => do p <- canon_out (fst pe); Ok (p, snd pe)) (outnames [] es).
+
+Definition rebuild_ops (t0 : node) (plan : list (path * entry)) : list op :=
+  map (fun p => mkOp p true f_mkdir) (sort_paths (mkdir_paths t0 plan))
+  ++ flat_map extract_ops plan
+  ++ flat_map (post_ops t0) plan.
+
+Definition rebuild (t0 : node) (es : list entry) : res node :=
+  do plan <- plan_of es; run (rebuild_ops t0 plan) t0.
+
+Definition roundtrip (c : wctx) (t : node) (t0 : node) : res node :=
+  do es <- walk c t; rebuild t0 es.
+
+(* ================================================================== 6. dispatcher (FN 320-339) *)
+Definition of_kind (t : tree) : kind :=
+  match of_TI t with 1 => KDir | 2 => KLink | _ => KFile end.
+Definition t_kind (k : kind) : tree := TI (match k with KFile => 0 | KDir => 1 | KLink => 2 end).
+Definition of_optZ (t : tree) : option Z := of_opt of_TI t.
+Definition of_name (t : tree) : name := of_bytes t.
+Definition of_path (t : tree) : path := map of_name (of_TL t).
+Definition t_path (p : path) : tree := TL (map t_bytes p).
+
+(* node: (0 mode ft data) | (1 mode ft ((name node) ...)) | (2 (comp ...)) *)
+Fixpoint of_node (t : tree) : node :=
+  match t with
+  | TL [TI 0; TI m; TI ft; d] => File m ft (of_bytes d)
+  | TL [TI 1; TI m; TI ft; TL chs] =>
+      Dir m ft (map (fun c => match c with
+                              | TL [nm; nd] => (of_name nm, of_node nd)
+                              | _ => ([], Link [])
+                              end) chs)
+  | TL [TI 2; tg] => Link (of_path tg)
+  | _ => Link []
+  end.
+Fixpoint t_node (n : node) : tree :=
+  match n with
+  | File m ft d => TL [TI 0; TI m; TI ft; t_bytes d]
+  | Dir m ft ch => TL [TI 1; TI m; TI ft;
+                       TL (map (fun nc => match nc with (k, c) => TL [t_bytes k; t_node c] end) ch)]
+  | Link tg => TL [TI 2; t_path tg]
+  end.
+
+(* ctx: (abs base arc|() cwd|() deref) *)
+Definition of_ctx (t : tree) : wctx :=
+  mkC (of_bool (tnth t 0)) (of_path (tnth t 1)) (of_opt of_path (tnth t 2)) (of_opt of_path (tnth t 3))
+      (of_bool (tnth t 4)).
+
+(* entry: (path (abs origin) attr ft empty data) *)
+Definition t_entry (e : entry) : tree :=
+  TL [t_path (e_path e); TL [t_bool (fst (e_origin e)); t_path (snd (e_origin e))]; TI (e_attr e); TI (e_ft e);
+      t_bool (e_empty e); t_bytes (e_data e)].
+Definition of_entry (t : tree) : entry :=
+  mkE (of_path (tnth t 0)) (of_bool (tnth (tnth t 1) 0), of_path (tnth (tnth t 1) 1)) (of_TI (tnth t 2))
+      (of_TI (tnth t 3)) (of_bool (tnth t 4)) (of_bytes (tnth t 5)).
+
+Definition t_optZ (o : option Z) : tree := t_opt TI o.
+
+Definition mode_dispatch (fn : Z) (a : tree) : tree :=
+  match fn with
+  (* FN 320 attributes_of : (kind st_mode) -> int *)
+  | 320 => TI (attributes_of (of_kind (tnth a 0)) (of_TI (tnth a 1)))
+  (* FN 321 decode_attr : () | (attr) -> (is_directory is_symlink is_junction is_socket readonly posix_mode|() st_fmt|() kind|()) *)
+  | 321 => let o := of_optZ a in
+           TL [t_bool (is_directory o); t_bool (is_symlink o); t_bool (is_junction o); t_bool (is_socket o);
+               t_bool (is_readonly o); t_optZ (posix_mode o); t_optZ (st_fmt o); t_opt t_kind (entry_kind o)]
+  (* FN 322 classify : (deref lmode smode) -> () | ((kind attr emptystream)) *)
+  | 322 => t_opt (fun ka => TL [t_kind (fst ka); TI (attributes_of (fst ka) (snd ka));
+                                t_bool (emptystream_of (fst ka))])
+                 (classify (of_bool (tnth a 0)) (of_TI (tnth a 1)) (of_TI (tnth a 2)))
+  (* FN 323 walk : (ctx node) -> res (list entry) *)
+  | 323 => t_res (fun es => TL (map t_entry es)) (walk (of_ctx (tnth a 0)) (of_node (tnth a 1)))
+  (* FN 324 rebuild : (node0 (list entry)) -> res node *)
+  | 324 => t_res t_node (rebuild (of_node (tnth a 0)) (map of_entry (of_TL (tnth a 1))))
+  (* FN 325 roundtrip : (ctx node node0) -> res node *)
+  | 325 => t_res t_node (roundtrip (of_ctx (tnth a 0)) (of_node (tnth a 1)) (of_node (tnth a 2)))
+  (* FN 326 from_datetime : (m e) float as m*2^e -> () | (filetime) *)
+  | 326 => t_optZ (FileTime.from_datetime (FileTime.BofZe (of_TI (tnth a 0)) (of_TI (tnth a 1))))
+  (* FN 327 totimestamp : filetime -> () | ((m e)) *)
+  | 327 => t_opt (fun me => TL [TI (fst me); TI (snd me)]) (FileTime.float_me (FileTime.totimestamp (of_TI a)))
+  (* FN 328 sort_names : list name -> list name  (sorted() of str) *)
+  | 328 => TL (map (fun nc => t_bytes (fst nc)) (sort_ch (map (fun n => (of_name n, Link [])) (of_TL a))))
+  (* FN 329 expand : node -> () | (node)   (dereference) *)
+  | 329 => let t := of_node a in t_opt t_node (expand deref_fuel t [] [] t)
+  (* FN 330 sanitize : path -> res path *)
+  | 330 => t_res t_path (sanitize (of_path a))
+  (* FN 331 canon : node -> node *)
+  | 331 => t_node (canon (of_node a))
+  (* FN 332 sort_paths : list path -> list path  (sorted() of PurePath) *)
+  | 332 => TL (map t_path (sort_paths (map of_path (of_TL a))))
+  | _ => TL [TI (-2)]
+  end.
